@@ -420,7 +420,9 @@ func (c14) closeBusy(sc core.Scenario, r *core.R) {
 	// no pings: a ping or pong forwarded to the client after it has closed makes its kernel answer with a reset
 	// (TCPAbortOnData), which discards what the slow reader has not consumed yet - TCP behaviour towards a slow
 	// reader, not a write the library got wrong
-	cl, err := env.NewClient(ClientOpt{RevIdent: "A", Opts: []jsonrpc.Option{jsonrpc.WithNoReconnect(), jsonrpc.WithPingInterval(0)}})
+	// ... and, with keepalive off, no idle timeout either: on a loaded machine the throttled transfer can take
+	// longer than the default 30 s, and a client that declares the silent link dead tears it down mid-frame
+	cl, err := env.NewClient(ClientOpt{RevIdent: "A", Opts: []jsonrpc.Option{jsonrpc.WithNoReconnect(), jsonrpc.WithPingInterval(0), jsonrpc.WithTimeout(0)}})
 	if err != nil {
 		r.Inconclusive("client: %v", err)
 		return
